@@ -27,7 +27,7 @@ func init() {
 			"covers every operation type; (R4) every OperationSpec field has equal json and yaml tags; (R5) option tables: delete " +
 			"propagation modes, create flag pairs, the three patch arms pass subresource/ignoreMissingObject/ignoreHookError; (R6) errors " +
 			"of the cluster calls are bound and returned; (R7) the YAML path normalises object/mergePatch/jsonPatch to JSON value types " +
-			"before appending. NOT decided: the effect on a cluster, that the two decoders produce equal Go values for equal documents.",
+			"before appending. Where the schema constrains `operation` by enum without requiring it, the key is always serialised (R3). NOT decided: the effect on a cluster, that the two decoders produce equal Go values for equal documents.",
 		Run: runC13,
 	})
 }
